@@ -135,18 +135,23 @@ def stopping(I, n=5, criterion="absolute", ev_period=1, es_period=1, source="met
         ev = MetricEvaluator(ev_period, {"m": (lambda s: Box(vals[next(it)])) if boxed else (lambda s: vals[next(it)])})
         name = "m"
     else:
-        ev = ObservableEvaluator(ev_period, [SigmaZ()], num_samples=1)
+        from qucumber.observables import SigmaX
+
+        # a second tracked observable with its own (different) statistics: the stopper reads only the monitored quantity's
+        ev = ObservableEvaluator(ev_period, [SigmaZ(), SigmaX()], num_samples=1)
         name = "SigmaZ"
 
         def scripted(nn_state, **kw):
             k = next(it)
-            return {"SigmaZ": {"mean": vals[k], "variance": var[k], "std_error": 0.0, "num_samples": 1}}
+            return {"SigmaZ": {"mean": vals[k], "variance": var[k], "std_error": 0.0, "num_samples": 1},
+                    "SigmaX": {"mean": 7.0 - k, "variance": 4.0 * (k + 1), "std_error": 0.0, "num_samples": 1}}
 
         ev.system.statistics = scripted
     with warnings.catch_warnings():
         warnings.simplefilter("ignore")
         if deprecated:
-            es = VarianceBasedEarlyStopping(es_period, tol, patience, ev, name)
+            # variance_name is documented as ignored (kept for backward compatibility), also when it names another tracked observable
+            es = VarianceBasedEarlyStopping(es_period, tol, patience, ev, name, variance_name="SigmaX")
         else:
             es = EarlyStopping(es_period, tol, patience, ev, name, criterion=criterion)
     seen = []
